@@ -522,6 +522,17 @@ def rule_index_use(ctx, m):
     ok = ok and bool(st_data) and norm(st_data[0].targets[0].slice) == 'name' and norm(st_data[0].value) == 'val'
     ctx.ob('C03-R6', lt, 'value read for a variable is assigned to the field of the same name', ok,
            'data[name] = val; setattr(traj, k, v)' if ok else 'read values are assigned under a different name')
+    # ... for every field read, whatever its value (None is a value: an unset optional field)
+    for c in sets:
+        lp = next((a for a in ancestors(c) if isinstance(a, (ast.For, ast.While))), None)
+        inner = [t for t, pol, o in guards_of(stmt_of(c)) if lp is not None and any(a is lp for a in ancestors(o))]
+        esc = [x for x in (ast.walk(lp) if lp is not None else []) if isinstance(x, (ast.Continue, ast.Break))]
+        ok = lp is not None and not inner and not esc
+        ctx.ob('C03-R6', lt, f'{norm(c)} runs for every value read', ok,
+               'unconditional in the loop over the values read' if ok else
+               (f'the assignment is skipped for some values ({norm(inner[0]) if inner else "continue/break in the loop"}): the '
+                'freshly constructed trajectory keeps the field\'s declared default there, so an optional field that was '
+                'stored unset (None) reads back as its default instead of None'), line=c.lineno)
 
 
 # ---------------------------------------------------------------- R1d ----
@@ -662,6 +673,25 @@ def rule_cast(ctx):
                ('a value is returned without being cast to the field\'s data type: for a field narrower than a Python '
                 'float (float32, float16) the trajectory keeps the double and reads back a different, rounded value'),
                line=r.lineno)
+    # ... and every value that convert_in accepts goes through _cast (which also gives the container its own
+    # copy: astype copies unless told otherwise)
+    ci = fs.func('FieldMetadata.convert_in')
+    crets = [n for n in walk_no_nested(ci.node) if isinstance(n, ast.Return)]
+    ctx.floor('C03-R8/convert_in', len(crets), 7, 'returns of convert_in')
+    for r in crets:
+        v = r.value
+        ok = v is None or (isinstance(v, ast.Constant) and v.value is None) or 'self._cast(' in norm(v)
+        ctx.ob('C03-R8', ci, f'return {norm(v)[:50] if v is not None else ""}', ok,
+               'None (unset optional) or built from self._cast(…) of the incoming data' if ok else
+               ('the incoming object itself is stored: it is neither brought to the field type nor copied, so the trajectory '
+                'shares the caller\'s array and changes when the caller reuses its buffer'), line=r.lineno)
+    for c in calls_in(fi.node):
+        if isinstance(c.func, ast.Attribute) and c.func.attr == 'astype':
+            cp = kwarg(c, 'copy')
+            ok = cp is None or (isinstance(cp, ast.Constant) and cp.value is True)
+            ctx.ob('C03-R8', fi, f'{norm(c)[:60]} returns a new array', ok,
+                   'astype copies by default' if ok else 'copy=False lets the stored array alias the caller\'s', line=c.lineno,
+                   nontrivial=False)
     cc = [c for c in calls_in(fi.node) if call_name(c) == 'np.can_cast']
     ok = bool(cc) and any(k.arg == 'casting' and norm(k.value) == "'same_kind'" for k in cc[0].keywords)
     ctx.ob('C03-R8', fi, 'unsafe casts refused', ok, "np.can_cast(…, casting='same_kind') before casting" if ok else
